@@ -56,7 +56,12 @@ def content(rng):
 
 
 def area(rng, sheet_prefix=''):
-    kind = rng.choice(['row', 'col', 'rect', 'rect', 'wcol', 'wcols', 'cell'])
+    kind = rng.choice(['row', 'col', 'rect', 'rect', 'wcol', 'wcols', 'cell', 'beyond'])
+    if kind == 'beyond':
+        # starts inside the data, ends below the last used row / right of the last used column (sheet U holds data only in A1:E8)
+        r1, c1 = rng.randrange(1, 9), rng.randrange(1, 6)
+        r2, c2 = rng.randrange(9, 14), min(7, c1 + rng.randrange(0, 4))      # column H.. of sheet T holds the formulas themselves
+        return sheet_prefix + f'{wbspec.a1(r1, c1)}:{wbspec.a1(r2, c2)}', (r1, c1, r2, c2)
     if kind == 'row':
         r, c1 = rng.randrange(1, 9), rng.randrange(1, 4)
         c2 = c1 + rng.randrange(1, 6 - c1)
@@ -192,6 +197,8 @@ def valuations(rng):
         for _ in range(rng.randrange(6, 16)):
             si = rng.choice([0, 0, 1])
             r, c = rng.randrange(1, 9), rng.randrange(1, 6)
+            if si == 1 and rng.random() < 0.35:
+                r, c = rng.randrange(9, 14), rng.randrange(1, 8)        # below / right of the data of sheet U
             if si == 0 and c <= 2:
                 v = rng.choice([rng.randrange(-20, 60), round(rng.uniform(0, 30), 2)])
             else:
